@@ -41,8 +41,11 @@ func jmpToOriginFunctionValue(from, to uintptr) (value []byte) {
 		}
 	}
 
+	// `to` is an instruction inside the origin function, not a function value: control has to arrive AT it,
+	// not at the address stored in it, and the origin's registers (RDX carries an argument or the closure
+	// context) must survive. jmp [rip+0] reads its target from the eight bytes that follow the instruction.
 	return []byte{
-		0x48, 0xBA,
+		0xFF, 0x25, 0x00, 0x00, 0x00, 0x00, // jmp QWORD PTR [rip+0]
 		byte(to),
 		byte(to >> 8),
 		byte(to >> 16),
@@ -50,8 +53,7 @@ func jmpToOriginFunctionValue(from, to uintptr) (value []byte) {
 		byte(to >> 32),
 		byte(to >> 40),
 		byte(to >> 48),
-		byte(to >> 56), // movabs rdx,to
-		0xFF, 0x22,     // jmp QWORD PTR [rdx]
+		byte(to >> 56), // .quad to
 	}
 }
 
